@@ -116,10 +116,10 @@ def _seq_result(run, findings, params, knobs):
         'by_kind': st['by_kind'],
         'by_status': {str(k): v for k, v in st['by_status'].items()},
         'states': sorted(st['states']),
-        'probes': {
+        'probes': dict({
             'overcommit_ledger_entries': st['overcommit_ledger_entries'],
             'reparent_subtree': st['reparent_subtree'],
-        },
+        }, **st.get('by_defect', {})),
         'sim_seconds': (run.sim.now - __import__('datetime').datetime(
             2026, 1, 1)).total_seconds(),
         'sample': [list(h) for h in run.history[:12]],
